@@ -50,7 +50,7 @@ def gen_kw_grammar(rng):
         start = ('seq', [('choice', [('seq', [('tok', 'if'), ('named', False, 'c', ('call', 'ident')), ('tok', 'then'), ('named', False, 's', ('call', 'ident'))]),
                                      ('named', False, 'name', ('call', 'ident'))]), 'eof'])
     plain = ('plain', [], ident_body)     # the same rule without the decorator, for the "unaffected" oracle
-    deco = ['name'] + (['nomemo'] if rng.random() < 0.3 else [])       # a @name rule may also be @nomemo (another decorator path in generated code)
+    deco = [rng.choice(['name', 'name', 'isname'])] + (['nomemo'] if rng.random() < 0.3 else [])       # @isname: the legacy spelling       # a @name rule may also be @nomemo (another decorator path in generated code)
     g = {'rules': [('start', [], start), ('ident', deco, ident_body)],
          'directives': {}, 'keywords': [("'" + k + "'") if quoted else k for k in kws]}
     if rng.random() < 0.35:
@@ -141,7 +141,7 @@ def shard(col, shard_i, ngrammars, ninputs):
                               {'oracle': 'generated parser', 'case': c.describe(), 'model.parse': io, 'generated': go})
         # non-keywords unaffected: the same grammar with the decorator removed
         g2 = dict(c.g)
-        g2['rules'] = [(n, [x for x in dd if x != 'name'], e) for n, dd, e in c.g['rules']]
+        g2['rules'] = [(n, [x for x in dd if x not in ('name', 'isname')], e) for n, dd, e in c.g['rules']]
         has_kw = any(w.upper() in {k.upper() for k in kws} for w in c.text.split())
         if io[0] == 'ok' and not has_kw and col.rng.random() < 0.7:
             m2 = R.compile_grammar(g2)
